@@ -187,11 +187,10 @@ print("implementation:", {k: r.get(k) for k in ("measure", "center", "int_mass",
 print("exact         :", exp)
 bad = "raises" in r
 if not bad:
-    tol = lambda e: 1e-10 * max(1.0, abs(e), exp["scale"])
-    bad |= abs(r["measure"] - exp["measure"]) > tol(exp["measure"])
-    bad |= any(abs(a - b) > tol(b) for a, b in zip(r["center"], exp["center"]))
+    bad |= abs(r["measure"] - exp["measure"]) > 1e-10 * exp["measure"]
+    bad |= any(abs(a - b) > 1e-10 * exp["L"] for a, b in zip(r["center"], exp["center"]))
     for mt in ("mass", "rigi"):
-        bad |= any(e is not None and abs(a - e) > tol(e) for a, e in zip(r["int_" + mt], exp["int_" + mt]))
+        bad |= any(e is not None and abs(a - e) > 1e-10 * s for a, e, s in zip(r["int_" + mt], exp["int_" + mt], exp["iscale"]))
 sys.exit(1 if bad else 0)
 """
 
@@ -215,6 +214,11 @@ def impl_integration(ctx, dump, E):
                 if abs(det) >= F(1, 8):
                     break
             b = [F(rng.randint(-8, 8), 4) for _ in range(dim)]
+            # unit change: the same element in other length units (nano-scale .. kilometres)
+            sL = rng.choice([F(1), F(1), F(1, 10**9), F(1, 10**6), F(10**3)])
+            A = [[x * sL for x in row] for row in A]
+            b = [x * sL for x in b]
+            det = det * sL ** dim
             sh = {"SEG": "Seg", "TRI": "Tri", "QUAD": "Quad", "TETRA": "Tet", "HEXA": "Hex", "PRISM": "Prism"}[name.rstrip("0123456789")]
             dmax = max(ndoc.get((name, "mass"), 0), ndoc.get((name, "rigi"), 0))
             exps_ = [e for e in exps(dim, dmax)]
@@ -242,8 +246,9 @@ def impl_integration(ctx, dump, E):
             for mt in ("mass", "rigi"):
                 ints[mt] = [float(integral(e)) if sum(e) <= ndoc.get((name, mt), -1) else None for e in exps_]
             cases.append({"elem": name, "A": [[float(x) for x in row] for row in A], "b": [float(x) for x in b], "exps": ex3})
-            scale = float(max(abs(x) for row in A for x in row) + max([abs(x) for x in b] + [1])) ** max(1, dmax) * float(meas)
-            exact.append({"measure": float(meas), "center": [float(x) for x in cen] + [0.0] * (3 - dim), "int_mass": ints["mass"], "int_rigi": ints["rigi"], "scale": scale})
+            L = float(sum(max(abs(A[d][k]) for k in range(dim)) for d in range(dim)) + max(abs(x) for x in b)) or float(sL)
+            exact.append({"measure": float(meas), "center": [float(x) for x in cen] + [0.0] * (3 - dim), "int_mass": ints["mass"], "int_rigi": ints["rigi"],
+                          "L": L, "iscale": [L ** sum(e) * float(meas) for e in exps_]})
     # straight-sided general quadrangles: area by the shoelace formula, centroid of the polygon
     for name in ("QUAD4", "QUAD8", "QUAD9"):
         r = E[name]
@@ -259,7 +264,7 @@ def impl_integration(ctx, dump, E):
             cx = sum((V[i][0] + V[(i + 1) % 4][0]) * (V[i][0] * V[(i + 1) % 4][1] - V[(i + 1) % 4][0] * V[i][1]) for i in range(4)) / (6 * area)
             cy = sum((V[i][1] + V[(i + 1) % 4][1]) * (V[i][0] * V[(i + 1) % 4][1] - V[(i + 1) % 4][0] * V[i][1]) for i in range(4)) / (6 * area)
             cases.append({"elem": name, "nodes": [[float(x) for x in nd] for nd in nodes], "exps": [[0, 0, 0]]})
-            exact.append({"measure": float(area), "center": [float(cx), float(cy), 0.0], "int_mass": [float(area)], "int_rigi": [float(area)], "scale": float(area)})
+            exact.append({"measure": float(area), "center": [float(cx), float(cy), 0.0], "int_mass": [float(area)], "int_rigi": [float(area)], "L": 4.0, "iscale": [float(area)]})
     rc, out, err = ctx.impl_python(os.path.join(common.VERIF, "corr", "impl_integrate.py"), input=json.dumps({"cases": cases}), timeout=900)
     if rc != 0:
         ctx.obligation("corr:impl-integration", False, err[-1200:])
@@ -273,15 +278,15 @@ def impl_integration(ctx, dump, E):
         if "raises" in r:
             probs.append("raises " + r["raises"])
         else:
-            tol = lambda x: 1e-10 * max(1.0, abs(x), e["scale"])
-            if abs(r["measure"] - e["measure"]) > tol(e["measure"]) or abs(r["measure_total"] - e["measure"]) > tol(e["measure"]):
+            # relative tolerances only (no absolute floor): measure ~ meas, centre ~ L, integral of a degree-k monomial ~ L^k meas
+            if abs(r["measure"] - e["measure"]) > 1e-10 * e["measure"] or abs(r["measure_total"] - e["measure"]) > 1e-10 * e["measure"]:
                 probs.append("measure %r exact %r" % (r["measure"], e["measure"]))
-            if any(abs(a - b) > tol(b) for a, b in zip(r["center"], e["center"])):
+            if any(abs(a - b) > 1e-10 * e["L"] for a, b in zip(r["center"], e["center"])):
                 probs.append("centre %r exact %r" % (r["center"], e["center"]))
             for mt in ("mass", "rigi"):
-                for a, x, ex in zip(r["int_" + mt], e["int_" + mt], c["exps"]):
+                for a, x, ex, isc in zip(r["int_" + mt], e["int_" + mt], c["exps"], e["iscale"]):
                     ncmp += 1
-                    if x is not None and abs(a - x) > tol(x):
+                    if x is not None and abs(a - x) > 1e-10 * isc:
                         probs.append("Integrate_e(x^%d y^%d z^%d, %s, %d points) = %r exact %r" % (ex[0], ex[1], ex[2], mt, r["npg_" + mt], a, x))
         kind = "general" if c.get("nodes") else "affine"
         ctx.note_case("integrate:%s:%s" % (c["elem"], kind))
@@ -304,17 +309,19 @@ if p.returncode != 0:
 r = json.loads(p.stdout)[0]
 print("implementation:", r)
 print("exact         :", exp)
-bad = "raises" in r
-if not bad:
-    tol = 1e-10 * max(1.0, exp["scale"])
-    bad |= abs(r["measure"] - exp["measure"]) > tol
-    bad |= any(abs(a - b) > tol for a, b in zip(r["center"], exp["center"]))
+bad = "raises" in r or len(r["obs"]) != len(exp["obs"])
+for o, e in zip(r.get("obs", []), exp["obs"]):
+    for k in ("length", "area", "volume"):
+        if e[k] is not None:
+            bad |= o[k] is None or not abs(o[k] - e[k]) <= 1e-10 * e[k]
+    bad |= not all(abs(a - b) <= 1e-10 * exp["L"] for a, b in zip(o["center"], e["center"]))
 sys.exit(1 if bad else 0)
 """
 
 MIXED = [("SEG2", "SEG3"), ("SEG4", "SEG2", "SEG3"), ("TRI3", "QUAD4"), ("QUAD4", "TRI3"), ("TRI6", "QUAD8"), ("QUAD9", "TRI10", "TRI3"),
          ("SEG2", "TRI3", "QUAD4"), ("QUAD8", "SEG3", "TRI6"), ("TETRA4", "HEXA8"), ("PRISM6", "HEXA8", "TETRA4"), ("HEXA20", "TETRA10"),
-         ("PRISM15", "HEXA20"), ("TRI3", "TETRA4", "PRISM6"), ("TRI3",), ("HEXA8",), ("SEG3",)]
+         ("PRISM15", "HEXA20"), ("TRI3", "TETRA4", "PRISM6"), ("TRI3",), ("HEXA8",), ("SEG3",), ("QUAD4", "SEG2"), ("TETRA4", "QUAD4", "SEG3"), ("SEG2", "TRI6")]
+QUATS = [(1, 0, 0, 0), (1, 1, 0, 0), (1, 2, 2, 0), (1, 1, 1, 1), (2, 1, 0, 1), (3, 1, 1, 0), (1, 2, 0, 2), (2, 3, 1, 1)]
 
 
 def _rand_affine(rng, dim):
@@ -326,10 +333,26 @@ def _rand_affine(rng, dim):
             return A, det, [F(rng.randint(-8, 8), 4) for _ in range(dim)]
 
 
+def _rot(q):
+    """exact rotation matrix of an integer quaternion (rows orthonormal, rational)"""
+    a, b, c, d = q
+    n = F(a * a + b * b + c * c + d * d)
+    return [[(a * a + b * b - c * c - d * d) / n, 2 * (b * c - a * d) / n, 2 * (b * d + a * c) / n],
+            [2 * (b * c + a * d) / n, (a * a - b * b + c * c - d * d) / n, 2 * (c * d - a * b) / n],
+            [2 * (b * d - a * c) / n, 2 * (c * d + a * b) / n, (a * a - b * b - c * c + d * d) / n]]
+
+
+def _mm(A, B):
+    return [[sum(A[i][k] * B[k][j] for k in range(len(B))) for j in range(len(B[0]))] for i in range(len(A))]
+
+
 def impl_mesh_measure(ctx, E):
-    """Mesh.length/area/volume and Mesh.center of hand-made meshes with several element groups of the
-    main dimension (any dict order, lower-dimensional groups present): exact measure = sum |det A| meas(ref),
-    exact centre = measure-weighted mean of the images of the reference centroids."""
+    """Mesh.length/area/volume and Mesh.center of hand-made meshes with several element groups (any dict
+    order; lower-dimensional groups embedded with exact rational frames; the whole mesh optionally tilted
+    in 3-D; any length unit), observed on the SAME mesh object after read-only queries (with a displacement
+    field) and after in-place Translate / Symmetry / Rotate(90 deg): exact measures = sum |det A| meas(ref)
+    per dimension, exact centre = measure-weighted mean of the images of the reference centroids of the
+    main-dimension groups, moved exactly."""
     rng = ctx.rng
     SH = {"SEG": "Seg", "TRI": "Tri", "QUAD": "Quad", "TETRA": "Tet", "HEXA": "Hex", "PRISM": "Prism"}
     cases, exact = [], []
@@ -338,29 +361,52 @@ def impl_mesh_measure(ctx, E):
         if any(n not in E for n in combo):
             continue
         for _ in range(reps):
-            groups, tot, mom, dmax = [], F(0), [F(0)] * 3, max(E[n]["dim"] for n in combo)
+            dmax = max(E[n]["dim"] for n in combo)
+            sL = rng.choice([F(1), F(1), F(1, 10**9), F(1, 10**6), F(10**3)])
+            tilt = _rot(rng.choice(QUATS)) if dmax < 3 and rng.random() < 0.5 else _rot((1, 0, 0, 0))
+            groups, tot, mom = [], {1: F(0), 2: F(0), 3: F(0)}, [F(0)] * 3
             for name in combo:
                 dim, sh = E[name]["dim"], SH[name.rstrip("0123456789")]
                 maps = []
                 for _k in range(rng.randint(1, 3)):
                     A, det, b = _rand_affine(rng, dim)
-                    maps.append({"A": [[float(x) for x in row] for row in A], "b": [float(x) for x in b]})
+                    # frame: the first `dim` rows of an exact rotation (lower-dimensional groups are embedded),
+                    # composed with the tilt of the whole mesh; 2-D meshes stay in their plane before the tilt
+                    Rf = _rot(rng.choice(QUATS)) if dim < dmax and dmax == 3 else (_rot(rng.choice([(1, 0, 0, 0), (2, 0, 0, 1), (3, 0, 0, 1), (1, 0, 0, 1)])) if dim < dmax else _rot((1, 0, 0, 0)))
+                    A3 = _mm(_mm([[x * sL for x in row] for row in A], [Rf[i] for i in range(dim)]), tilt)
+                    b3 = _mm([[x * sL for x in (b + [F(rng.randint(-8, 8), 4) for _ in range(3 - dim)])]], tilt)[0]
+                    maps.append({"A3": [[float(x) for x in row] for row in A3], "b3": [float(x) for x in b3]})
+                    meas = abs(det) * sL ** dim * MEAS[sh]
+                    tot[dim] += meas
                     if dim == dmax:
-                        meas = abs(det) * MEAS[sh]
                         cref = [iref(sh, tuple(int(j == k) for j in range(dim))) / MEAS[sh] for k in range(dim)]
-                        cen = [b[k] + sum(cref[d] * A[d][k] for d in range(dim)) for k in range(dim)] + [F(0)] * (3 - dim)
-                        tot += meas
+                        cen = [b3[k] + sum(cref[d] * A3[d][k] for d in range(dim)) for k in range(3)]
                         mom = [m + meas * x for m, x in zip(mom, cen)]
                 groups.append({"elem": name, "maps": maps})
-            cases.append({"groups": groups})
-            exact.append({"measure": float(tot), "center": [float(m / tot) for m in mom], "scale": float(tot) + max(abs(float(m / tot)) for m in mom)})
-    rc, out, err = ctx.impl_python(os.path.join(common.VERIF, "corr", "impl_meshmeasure.py"), input=json.dumps({"cases": cases}), timeout=900)
+            cen = [m / tot[dmax] for m in mom]
+            t = [F(rng.randint(-8, 8), 4) * sL for _ in range(3)]
+            pS = [F(rng.randint(-4, 4), 4) * sL for _ in range(3)]
+            nS = _rot(rng.choice(QUATS[1:]))[0]
+            pR = [F(rng.randint(-4, 4), 4) * sL for _ in range(3)]
+            ops = [["observe"], ["queries"], ["observe"], ["translate", [float(x) for x in t]], ["observe"],
+                   ["symmetry", [float(x) for x in pS], [float(x) for x in nS]], ["observe"], ["rotate90z", [float(x) for x in pR]], ["observe"]]
+            c1 = [a + b for a, b in zip(cen, t)]
+            dd = sum((a - b) * n for a, b, n in zip(c1, pS, nS))
+            c2 = [a - 2 * dd * n for a, n in zip(c1, nS)]
+            c3 = [pR[0] - (c2[1] - pR[1]), pR[1] + (c2[0] - pR[0]), c2[2]]
+            ms = {"length": float(tot[1]) if dmax >= 1 else None, "area": float(tot[2]) if dmax >= 2 else None, "volume": float(tot[3]) if dmax == 3 else None}
+            obs = [dict(ms, center=[float(x) for x in cc]) for cc in (cen, cen, c1, c2, c3)]
+            cases.append({"groups": groups, "ops": ops})
+            exact.append({"obs": obs, "L": float(sL) * 12.0})
+    script = os.path.join(common.VERIF, "corr", "impl_meshmeasure.py")
+    rc, out, err = ctx.impl_python(script, input=json.dumps({"cases": cases}), timeout=900)
     if rc != 0:
         ctx.obligation("corr:mesh-measure", False, err[-1200:])
         ctx.violation("corr:mesh-measure-impl-crash", "implementation-side mesh measure run failed: " + ((err.strip().splitlines() or ["?"])[-1][:200]), {"stderr": err[-3000:]}, found_input=False)
         return
     res = json.loads(out)
     nbad = 0
+    STAGE = ["as built", "after read-only queries", "after Translate", "after Symmetry", "after Rotate(90)"]
     for c, e, r in zip(cases, exact, res):
         label = "+".join(g["elem"] for g in c["groups"])
         ctx.note_case("mesh-measure:" + label)
@@ -368,17 +414,20 @@ def impl_mesh_measure(ctx, E):
         if "raises" in r:
             probs.append("raises " + r["raises"])
         else:
-            tol = 1e-10 * max(1.0, e["scale"])
-            if abs(r["measure"] - e["measure"]) > tol:
-                probs.append("measure %r exact %r" % (r["measure"], e["measure"]))
-            if any(abs(a - b) > tol for a, b in zip(r["center"], e["center"])):
-                probs.append("centre %r exact %r" % (r["center"], e["center"]))
+            for st, o, x in zip(STAGE, r["obs"], e["obs"]):
+                for k in ("length", "area", "volume"):
+                    if x[k] is not None and (o[k] is None or not abs(o[k] - x[k]) <= 1e-10 * x[k]):
+                        probs.append("%s: %s %r exact %r" % (st, k, o[k], x[k]))
+                if not all(abs(a - b) <= 1e-10 * e["L"] for a, b in zip(o["center"], x["center"])):
+                    probs.append("%s: centre %r exact %r" % (st, o["center"], x["center"]))
+                if probs:
+                    break
         if probs:
             nbad += 1
-            ctx.violation("mesh-measure:" + label, "mesh with groups %s: %s" % (label, "; ".join(probs)),
-                          {"case": c, "exact": e, "replay_py": REPLAY_MESH % dict(req=json.dumps({"cases": [c]}), exp=json.dumps(e), script=os.path.join(common.VERIF, "corr", "impl_meshmeasure.py"))}, True)
+            ctx.violation("mesh-measure:" + label, "mesh with groups %s: %s" % (label, "; ".join(probs[:3])),
+                          {"case": c, "exact": e, "replay_py": REPLAY_MESH % dict(req=json.dumps({"cases": [c]}), exp=json.dumps(e), script=script)}, True)
     ctx.cov["impl_mesh_measure_cases"] = len(cases)
-    ctx.obligation("corr:Mesh.length/area/volume/center exact on multi-group straight-sided meshes", nbad == 0, "%d of %d cases differ" % (nbad, len(cases)))
+    ctx.obligation("corr:Mesh.length/area/volume/center exact on multi-group, embedded, moved straight-sided meshes (any length unit)", nbad == 0, "%d of %d cases differ" % (nbad, len(cases)))
 
 
 def run(ctx):
